@@ -64,12 +64,14 @@ def cell_features(netlist):
                 name = c.name or ''
                 ident = c.data.get('EDIF.identifier', '') or ''
                 bus = len(c.wires) > 1 or c.is_array
-                amp = bus and (ident == '&' or ident.startswith('&_')) and not ident.endswith('_')
+                bsl = bus and name.startswith('\\') and name.count(' ') != 1
+                if bsl:
+                    f['backslash-bus-split'].append(name)
+                # (K4 repaired: an &_ identifier no longer hides the name from the reader; the feature stays so that a
+                # bus lost for this reason is attributed - there is no open entry for it any more, so it is a VIOLATION)
+                amp = bus and not bsl and (ident == '&' or ident.startswith('&_')) and not ident.endswith('_')
                 if amp:
                     f['amp-underscore-bus-split'].append(name)
-                # (the identifier test comes first in the reader: with an &_ identifier the name is not looked at)
-                if bus and not amp and name.startswith('\\') and name.count(' ') != 1:
-                    f['backslash-bus-split'].append(name)
                 if not bus and re.match(r'.*\[\d+\]$', name, re.S) and re.match(r'.*_\d+_$', ident, re.S):
                     f['bitlike-scalar-merged-as-bit'].append(name)
                 if '*' in name or '?' in name:
@@ -373,10 +375,10 @@ def explain_c05(lines, exp, doc):
                 mn = re.match(r'^(.*)\[(\d+)\]$', orig, re.S) if orig is not None else None
                 if mi and mn:
                     short_i, short_n = mi.group(1), mn.group(1)
-                    if (short_i == '&' or short_i.startswith('&_')) and not short_i.endswith('_'):
-                        f['amp-underscore-bits-not-merged'].append(short_n)
-                    elif short_n.startswith('\\') and orig.count(' ') != 1:
+                    if short_n.startswith('\\') and orig.count(' ') != 1:
                         f['backslash-bits-not-merged'].append(short_n)
+                    elif (short_i == '&' or short_i.startswith('&_')) and not short_i.endswith('_'):
+                        f['amp-underscore-bits-not-merged'].append(short_n)     # K4 repaired: no open entry, a VIOLATION
                     if '*' in short_n or '?' in short_n:
                         f['glob-name-merge'].append(short_n)
                     if short_i.lower() in idents:
@@ -606,6 +608,8 @@ def run(prop, tier, seed, replay):
             obj = json.load(open(os.path.join(CORPUS_DIR, fn)))
             if obj.get('property') not in (None, prop) or obj.get('expect') != 'pass':
                 continue
+            if obj.get('tier') == 'thorough' and tier != 'thorough':
+                continue                  # large bundled file of a repaired finding: part of the thorough tier's bundled pass
             res, info = run_case_file(prop, os.path.join(CORPUS_DIR, fn))
             n_eval += 1
             stats['corpus_cases'] += 1
